@@ -7,7 +7,7 @@
    emitted on a negative credit, and all frames but the last fit in the credit (HcCredit.v). The real-valued bound
    bytes <= ceiling * (interval + rtt) + one frame is checked on the implementation's frames with the
    virtual clock by the oracle; it is not derived here through the float arithmetic (partial). *)
-From UF Require Import Consts Base Frame F64 Sender FrameQueue SendRate HalfConn HcLemmas SendRateProofs HcTotal HcCredit CreditLedger.
+From UF Require Import Consts Base Frame F64 Sender FrameQueue SendRate HalfConn HcLemmas SendRateProofs HcTotal HcCredit CreditLedger RateAtHc.
 
 Theorem C13_rate_le_ceiling :
   forall m ops, MSS <= m -> sr_rate (fold_left rate_step ops (src_new m)) <= m.
@@ -91,6 +91,14 @@ Proof. exact step_gain. Qed.
 Theorem C13_flush_leaves_credit :
   forall h h' out, hc_flush h = Ok (h', out) -> out <> [] -> exists pre l, out = pre ++ [l] /\ (- Z.of_N (len l) <= h_credit h')%Z.
 Proof. exact flush_leaves_credit. Qed.
+
+(* the allowed rate of a HalfConnection - the rate refill uses - is at most the ceiling it was created with, in every
+   reachable state (any sends, receives, steps, flushes and incoming frames) *)
+Theorem C13_hc_rate_le_ceiling :
+  forall c seed ops, MSS <= cfg_tx_bandwidth_limit c ->
+  sr_rate (h_src (fold_left hc_apply ops (hc_new c seed))) <= cfg_tx_bandwidth_limit c.
+Proof. exact hc_rate_le_ceiling. Qed.
+Print Assumptions C13_hc_rate_le_ceiling.
 
 (* non-vacuity: a history with three steps and three flushes that emits 54 bytes against 3594 bytes of gains *)
 Example C13_ledger_run :
